@@ -139,6 +139,17 @@ func (p *pairProg) baseline() {
 	})
 }
 
+var (
+	causeMu sync.Mutex
+	causes  = map[string]bool{}
+)
+
+func knownCause(culprit, id string) bool {
+	causeMu.Lock()
+	defer causeMu.Unlock()
+	return causes[culprit+"\x00"+id]
+}
+
 type pairStatsT struct {
 	mu       sync.Mutex
 	extra    map[string]any
@@ -280,7 +291,7 @@ func runPairs(e *lib.Env, mods []stateMod, cal *calibration, statePs []*statePro
 		report := func(culprit, id string, gotv string, srcA string) {
 			// key by the observing module (probe.X and post.X are the same observation taken
 			// before and after B's own touches); the text names the exact label
-			obsName := strings.TrimPrefix(strings.TrimPrefix(id, "probe."), "post.")
+			obsName := strings.TrimPrefix(strings.TrimPrefix(strings.TrimPrefix(id, "probe."), "post."), "touchout.")
 			if lostAll {
 				obsName = "output-lost"
 			}
@@ -309,6 +320,32 @@ func runPairs(e *lib.Env, mods []stateMod, cal *calibration, statePs []*statePro
 		// what differs already then is caused by running *any* program before B. Then every
 		// single touch of A on its own: a touch is the cause of the observations that differ
 		// with it but not without it.
+		// Causes established by earlier pairs are remembered (cause module -> observation id):
+		// when every differing observation of this pair is explained by a remembered cause that
+		// A contains, the attribution runs are skipped (they would reproduce known keys).
+		explainedAll := true
+		for _, id := range confirmed {
+			obsID := id
+			if lostAll {
+				obsID = "output-lost"
+			}
+			ok := knownCause("any-program", obsID)
+			for _, t := range a.state.touched {
+				if knownCause(t, obsID) {
+					ok = true
+				}
+			}
+			if !ok {
+				explainedAll = false
+			}
+			if lostAll {
+				break
+			}
+		}
+		if explainedAll {
+			bump("ordered_pairs_differing_explained_by_established_causes")
+			return
+		}
 		attributed := map[string]bool{} // "@"+observation id
 		runVariant := func(culprit string, touched map[string]bool) (*observation, string, bool) {
 			sp := buildStateProgram(mods, a.state.id, touched, cal.modOK)
@@ -326,12 +363,21 @@ func runPairs(e *lib.Env, mods []stateMod, cal *calibration, statePs []*statePro
 			return o.val[id] != b.base.val[id]
 		}
 		reportAs := func(culprit, id, gotv, srcA string) { report(culprit, id, gotv, srcA) }
+		remember := func(culprit, id string) {
+			if lostAll {
+				id = "output-lost"
+			}
+			causeMu.Lock()
+			causes[culprit+"\x00"+id] = true
+			causeMu.Unlock()
+		}
 		o0, src0, ok0 := runVariant("no-touch", map[string]bool{})
 		if ok0 {
 			first := true
 			for _, id := range confirmed {
 				if differs(o0, id) {
 					attributed["@"+id] = true
+					remember("any-program", id)
 					if first || !lostAll {
 						reportAs("any-program", id, o0.val[id], src0)
 					}
@@ -351,6 +397,7 @@ func runPairs(e *lib.Env, mods []stateMod, cal *calibration, statePs []*statePro
 			for _, id := range confirmed {
 				if differs(ot, id) && !(ok0 && differs(o0, id)) {
 					attributed["@"+id] = true
+					remember(t, id)
 					if !reported {
 						reported = true
 						reportAs(t, id, ot.val[id], srct)
